@@ -1,16 +1,21 @@
 (* Props/C16.v — Recovered runs produce the same outputs as failure-free runs.
    Only statements here; every proof is [exact <lemma of Recovery/Proofs.v>]. *)
 From Coq Require Import List NArith ZArith Lia.
-From SF Require Import Base.Str Recovery.Model Recovery.Proofs Recovery.Budget Recovery.Corr Retry.Model.
+From SF Require Import Base.Str Recovery.Model Recovery.Proofs Recovery.Budget Recovery.BudgetSync Recovery.Corr Retry.Model.
 Import ListNotations.
 Local Open Scope string_scope. Local Open Scope list_scope.
 
-(* SAFETY, full generality: for every well-formed job DAG (any shape, any size, any deterministic job
-   functions) and EVERY history of successful executions and data losses -- any failures in any phase, any
-   number of them, any rollback sets, any order, concurrent or not -- every output that exists at the end
-   equals the output the failure-free run computes for that job.  In particular, if the run completes, the
-   workflow outputs are those of the failure-free run. *)
-Theorem C16_same_outputs : forall (val : Type) (d : dag val),
+(* SAFETY OF THE MODEL (partial w.r.t. the code).  In the job-DAG model of Recovery/Model.v -- one value per job, an execution
+   computes the job function from the values present in the store, an execution with a missing input changes nothing --
+   for every well-formed DAG and EVERY history of executions and data losses, every output that exists equals the
+   failure-free output.  This holds by the construction of the model: stale, duplicated or wrongly tagged tokens, and the
+   machinery that could produce them (_inject_tokens, build_graph, Step.restore, InterWorkflowPort), are NOT expressible in
+   it.  What it says about the code is: IF a real run is a history of this kind, its outputs are right.  That a real run is
+   of this kind is established only per run, by the check: the recorded history is replayed (Recovery/Corr.v:run_checked --
+   every completed execution must be [enabled], i.e. its inputs exist in the model) and the delivered output is compared
+   with the model's store and with the failure-free denotation, plus the oracle.  Findings 3-5 are real runs that are NOT of
+   this kind. *)
+Theorem C16_same_outputs_partial : forall (val : Type) (d : dag val),
   well_formed d -> forall evs i v, run d evs empty i = Some v -> failure_free d i = Some v.
 Proof. exact recovered_equals_failure_free'. Qed.
 
@@ -41,19 +46,24 @@ Proof. exact ensure_mono'. Qed.
 
 (* LIVENESS WITH THE RETRY BUDGET (partial).  A managed history is a list of failures, each with the outputs lost with it
    and the rollback set the engine chose (Recovery/Budget.v: granted iff every member's version < limit, then all
-   versions +1 and the members are re-executed).  If for EVERY job   1 + (number of rollbacks that re-execute it)  <=  limit
-   -- re-executions demanded by the job's own failures AND by its consumers' failures, which is what the code counts
-   (finding 1) -- then from any state that agrees with the failure-free run: no rollback is ever refused, the versions are
-   exactly 1 + demand, the state still agrees, and finishing without further failures yields the failure-free output of
-   every job.  Partial: the hypothesis is about demanded re-executions, not about failures as the property text says
-   (C16_completes_refuted shows the text's hypothesis is too weak); concurrency of recoveries is not modelled (C19). *)
+   versions +1 and the members are re-executed in order).  If every rollback set is CLOSED w.r.t. the store it is applied
+   to (it contains the failed job; every input of a member is available or an earlier member: [all_closed]) and for EVERY
+   job   1 + (number of rollbacks that re-execute it)  <=  limit   -- re-executions demanded by the job's own failures AND
+   by its consumers' failures, which is what the code counts (finding 1) -- then from any state that agrees with the
+   failure-free run: no rollback is ever refused, right after each rollback the failed job's output exists again
+   ([recovered_all]: the run can go on from there), the versions are exactly 1 + demand, and every value in the store is
+   the failure-free one.  Partial: the hypothesis is about demanded re-executions, not about failures as the property text
+   says (C16_completes_refuted shows the text's hypothesis is too weak); closedness of the engine's real rollback sets is
+   property C18; concurrency of recoveries is not modelled (C19); the model has no correspondence leg of its own (its
+   counter is tied to Retry/Model.v by C16_budget_matches_retry_counter, which C17's correspondence ties to the code). *)
 Theorem C16_completes_partial : forall (val : Type) (dflt : val) (d : dag val) L h s0,
   well_formed d -> agrees val dflt d s0 ->
+  all_closed val d (Some L) (m0 val s0) h = true ->
   (forall j, (1 + demand h j <= L)%N) ->
   exists m', mrun val d (Some L) (m0 val s0) h = Some m' /\
+             recovered_all val d (Some L) (m0 val s0) h /\
              (forall j, mver val m' j = (1 + demand h j)%N) /\
-             agrees val dflt d (mst val m') /\
-             forall out, out < length d -> ensure d (S out) (mst val m') out out = failure_free d out.
+             agrees val dflt d (mst val m').
 Proof. exact completes_within_budget. Qed.
 (* ... and every granted rollback whose set is closed (contains the failed job; every input of a member is available or an
    earlier member) makes the failed job's output exist again *)
@@ -66,6 +76,20 @@ Proof. exact mstep_recovers. Qed.
 Theorem C16_budget_is_tight : forall (val : Type) (d : dag val) (L : N) (h : list failure) (s0 : store val) m',
   mrun val d (Some L) (m0 val s0) h = Some m' -> forall j : nat, (demand h j > 0)%N -> (1 + demand h j <= L)%N.
 Proof. exact granted_only_within_budget. Qed.
+
+(* The counter of Recovery/Budget.v is the counter of Retry/Model.v: on a duplicate-free rollback set none of whose jobs is
+   recovering, [granted] holds iff [synchronize] (the model of _synchronize_workflows tied to the code by C17) does not raise,
+   and then both leave the same versions.  ([synchronize] increments as it goes and keeps earlier increments when it raises --
+   the run is aborted then -- and skips recovering requests, which Budget.v does not model.) *)
+Theorem C16_budget_matches_retry_counter : forall (val : Type) (name : nat -> string),
+  (forall a b, name a = name b -> a = b) ->
+  forall L vs (m : mstate val) S,
+  NoDup S -> represents val name vs m ->
+  snd (synchronize (Some L) vs (plain (map name S))) = negb (granted val (Some L) m S) /\
+  (granted val (Some L) m S = true ->
+   forall m' d f, mstep val d (Some L) m f = Some m' -> rset f = S ->
+   represents val name (fst (synchronize (Some L) vs (plain (map name S)))) m').
+Proof. exact budget_matches_retry_counter. Qed.
 
 (* REFUTED half of the text: "each job fails fewer times than the retry limit => the run completes".
    The retry counter counts re-executions, not failures: in a 3-job pipeline with limit 2 where /s1 and /s2
@@ -107,6 +131,15 @@ Example C16_budget_example :
   mrun cval ex_dag (Some 2%N) (m0 cval s) h = None /\
   all_closed cval ex_dag (Some 3%N) (m0 cval s) h = true.
 Proof. vm_compute. repeat split; try reflexivity. eexists. split; reflexivity. Qed.
+(* closedness matters: an empty rollback set is "within budget" for limit 1 but recovers nothing *)
+Example C16_closedness_needed :
+  let h := [mkfail 3 [1; 2; 3] []] in let s := run ex_dag [Exec 0; Exec 1; Exec 2; Exec 3] empty in
+  (forall j, (1 + demand h j <= 1)%N) /\ all_closed cval ex_dag (Some 1%N) (m0 cval s) h = false /\
+  (exists m', mrun cval ex_dag (Some 1%N) (m0 cval s) h = Some m' /\ mst cval m' 3 = None).
+Proof.
+  split; [intros j; vm_compute; discriminate|]. split; [vm_compute; reflexivity|].
+  eexists. split; vm_compute; reflexivity.
+Qed.
 Lemma ex_dag_wf : well_formed ex_dag.
 Proof.
   intros i j H k Hk.
@@ -115,7 +148,7 @@ Proof.
   destruct i; discriminate H.
 Qed.
 
-Print Assumptions C16_same_outputs.
+Print Assumptions C16_same_outputs_partial.
 Print Assumptions C16_failure_free_total.
 Print Assumptions C16_failure_free_fixpoint.
 Print Assumptions C16_rollback_completes_partial.
@@ -124,3 +157,4 @@ Print Assumptions C16_completes_refuted.
 Print Assumptions C16_completes_partial.
 Print Assumptions C16_rollback_recovers.
 Print Assumptions C16_budget_is_tight.
+Print Assumptions C16_budget_matches_retry_counter.
